@@ -492,6 +492,11 @@ def search(ctx):
         plan.append(dict(seed=int(ctx.rng.integers(0, 2**31)), L=1, ham=["pauli", "ising"][k % 2], state=["zeros", "y+", "x+"][k % 3],
                          mode="TDVP" if k % 3 else "BUG", order=1 + k % 2, T=1.0))
         ctx.count("one_site_chains")
+    # six-site Heisenberg chains over a longer time: the compressed MPO is in a complex gauge (its operator blocks are not Hermitian one
+    # by one) and the bonds keep growing during the run
+    for k in range(ctx.scale(2, 6)):
+        plan.append(dict(seed=int(ctx.rng.integers(0, 2**31)), L=6, ham="heisenberg", state=["x+", "Neel", "y+"][k % 3], mode="TDVP", order=2 - k % 2, T=1.0))
+        ctx.count("heisenberg_six_sites")
     # wide and long enough for the middle bonds to pass dimension 8: the local Krylov steps then leave the small dense path
     for k in range(ctx.scale(1, 4)):
         plan.append(dict(seed=int(ctx.rng.integers(0, 2**31)), L=8, ham="pauli", state=["Neel", "x+"][k % 2], mode="TDVP", order=1 + k % 2, T=1.2, wide=True))
